@@ -457,17 +457,17 @@ func report(ck *Check, tier string, seed int64, results []*Result, start time.Ti
 		"violations":  len(unlisted),
 		"assumptions": ck.Assume,
 		"coverage": map[string]interface{}{
-			"evaluations":         len(results),
-			"distinct_nontrivial": len(distinct),
-			"rule":                ck.Rule,
-			"samples":             samples,
-			"runs_held":           held,
-			"runs_violated":       violated,
-			"runs_inconclusive":   inconclusive,
-			"events_observed":     totalEvents,
-			"events_by_kind":      kinds,
-			"coverage_cells":      cover,
-			"known_findings_seen": knownHit,
+			"evaluations":                         len(results),
+			"distinct_nontrivial":                 len(distinct),
+			"rule":                                ck.Rule,
+			"samples":                             samples,
+			"runs_held":                           held,
+			"runs_violated":                       violated,
+			"runs_inconclusive":                   inconclusive,
+			"events_observed":                     totalEvents,
+			"events_by_kind":                      kinds,
+			"coverage_cells":                      cover,
+			"known_findings_seen":                 knownHit,
 			"violations_of_other_properties_seen": otherProps,
 		},
 	}
